@@ -75,3 +75,39 @@ func Hashes(c *Check, part string, o Options, n int) int {
 	}
 	return ExitOK
 }
+
+// One executes a single run index of a part and prints its scenario, events and violation.
+func One(c *Check, part string, o Options, idx uint64) int {
+	var p *Part
+	for i := range c.Parts {
+		if c.Parts[i].Name == part {
+			p = &c.Parts[i]
+		}
+	}
+	if p == nil {
+		return ExitHarness
+	}
+	scratch, err := ScratchRoot()
+	if err != nil {
+		return ExitHarness
+	}
+	defer os.RemoveAll(scratch)
+	e := Env{AtlasBin: o.AtlasBin, Scratch: scratch, Tier: o.Tier, RunIndex: idx, Params: p.Params}
+	if p.ProcessLevel {
+		d, _ := os.MkdirTemp(scratch, "run-")
+		e.Scratch = d
+	}
+	res := Exec(c.Property, p.Fn, NewTape(Mix(o.Seed, p.Name, idx)), &e)
+	for _, l := range res.Sample {
+		fmt.Println(l)
+	}
+	fmt.Println("--- events")
+	for _, l := range res.Events {
+		fmt.Println(l)
+	}
+	if res.Violation != nil {
+		fmt.Printf("VIOLATION %s %s\n%s\n", res.Violation.Invariant, res.Violation.Signature, res.Violation.Detail)
+		return ExitViolation
+	}
+	return ExitOK
+}
